@@ -43,7 +43,10 @@ var (
 	buf      [1]byte
 
 	blockedYields int
+	syncYields    int
 )
+
+const maxSyncYields = 400
 
 const (
 	maxTrace = 4096
@@ -182,6 +185,20 @@ func blocked() {
 	switchTo(others[tp.Draw(k)], "blocked-on-lock")
 }
 
+// syncPoint is installed as simhook.SyncHook: before an atomic operation the
+// tape decides (1 in 3) whether another task runs first.
+//
+//go:norace
+func syncPoint() {
+	if tp == nil || syncYields >= maxSyncYields {
+		return
+	}
+	if tp.Draw(3) == 0 {
+		syncYields++
+		switchTo(pickNext(), "before-atomic")
+	}
+}
+
 // onStep is installed as simhook.OnStep: a function-entry / loop yield.
 //
 //go:norace
@@ -284,6 +301,7 @@ func setup(t *tape.Tape, n int, maxSwitches int) {
 	traceLen = 0
 	switches = 0
 	blockedYields = 0
+	syncYields = 0
 	maxSw = maxSwitches
 	cur = n // the driver holds the baton
 }
@@ -312,6 +330,7 @@ func drive(n int) {
 	simhook.Steps = 0
 	simhook.OnStep = onStep
 	simhook.BlockedHook = blocked
+	simhook.SyncHook = syncPoint
 	simhook.Next = nextGap()
 	first := pickNext()
 	cur = first
@@ -320,6 +339,7 @@ func drive(n int) {
 	simhook.Next = ^uint64(0)
 	simhook.OnStep = nil
 	simhook.BlockedHook = nil
+	simhook.SyncHook = nil
 }
 
 //go:norace
